@@ -7,6 +7,10 @@ import subprocess
 import threading
 
 
+CHILD_LIMIT = 600      # seconds per child; the slowest case takes well under a minute on an idle machine
+MAX_CONFIRMED = 4      # dead children (each confirmed by a second run) after which the remaining cases are skipped
+
+
 def run(ck, thorough):
     cases = ck.path("nest-cases.ndjson")
     ck.tlc("proto", "Nesting", "Nesting_thorough.cfg" if thorough else "Nesting_quick.cfg", label="generator: nesting families x depth x variant",
@@ -18,22 +22,32 @@ def run(ck, thorough):
     os.makedirs(outdir, exist_ok=True)
 
     confirm_lock = threading.Lock()
+    state = {"confirmed": 0, "unconfirmed": 0}
 
     def one(k):
         c = items[k]
         tp = os.path.join(outdir, "%d.ndjson" % k)
         args = [ck.vdrive, "lexers", "nest", "-lang", c["lang"], "-pre", c["pre"], "-open", c["open"], "-mid", c["mid"], "-close", c["close"],
                 "-post", c["post"], "-depth", str(c["depth"]), "-variant", c["variant"], "-out", tp, "-tid", str(k + 1)]
+        if state["confirmed"] >= MAX_CONFIRMED:
+            return None                 # enough dead children confirmed: the verdict is settled, the remaining cases are skipped
+
         def child():
             try:
-                p = subprocess.run(args, stdout=subprocess.PIPE, stderr=subprocess.PIPE, timeout=900)
+                p = subprocess.run(args, stdout=subprocess.PIPE, stderr=subprocess.PIPE, timeout=CHILD_LIMIT)
                 return p.returncode, p.stderr[-400:].decode("utf-8", "replace")
             except subprocess.TimeoutExpired:
                 return -1, "timeout (hang)"
         rc, err = child()
         if rc != 0:
             with confirm_lock:          # a dead child counts only if it dies again when run once more, one at a time
+                if state["confirmed"] >= MAX_CONFIRMED:
+                    return None
                 rc, err = child()
+                if rc != 0:
+                    state["confirmed"] += 1
+                else:
+                    state["unconfirmed"] += 1
         if rc != 0:
             # the child died: fatal error (e.g. 'goroutine stack exceeds 1000000000-byte limit') or hang
             kind = "fatal" if rc != -1 else "hang"
@@ -48,10 +62,16 @@ def run(ck, thorough):
     with concurrent.futures.ThreadPoolExecutor(max_workers=max(2, ck.cores // 2)) as ex:
         paths = list(ex.map(one, range(len(items))))
     allp = ck.path("nest.ndjson")
+    skipped = sum(1 for p in paths if p is None)
+    if skipped:
+        ck.notes.append("nesting: %d dead children confirmed by a second run; the remaining %d cases were skipped" % (state["confirmed"], skipped))
+    if state["unconfirmed"]:
+        ck.notes.append("nesting: %d children died once but completed when re-run alone (machine load); not counted" % state["unconfirmed"])
     with open(allp, "w") as out:
         for p in paths:
-            out.write(open(p).read())
-    ck.cov["evaluations"] += len(items)
+            if p is not None:
+                out.write(open(p).read())
+    ck.cov["evaluations"] += len(items) - skipped
     ck.cov["distinct_nontrivial"] += len({(c["lang"], c["name"], c["variant"]) for c in items if c["depth"] > 1000})
     ck.cov["samples"].append(items[len(items) // 2])
     ck.cov["rule"] += ("nesting: %d cases = recursive construct x depth x {closed, open, half} x entry point, each in its own process under the "
